@@ -268,7 +268,7 @@ def handler_stream(c):
 
 C05_THEOREMS = ["SolOutM.sampleStep_spec", "SolOutM.sampleStep_lengths", "SolOutM.runTimes_forward", "SolOutM.runRest_nil_of_last",
                 "SolOutM.teval_exact_times_forward", "SolOutM.teval_exact_times_backward", "SolOutM.runTimes_mirror", "SolOutM.teval_early_stop_forward", "SolOutM.dueBeforeEvent_tEvents",
-                "SolOutM.outputPhase_prevEvent"]
+                "SolOutM.outputPhase_prevEvent", "SolOutM.popBeyond_last", "SolOutM.popBeyond_prefix"]
 
 
 def c05(c):
@@ -313,7 +313,7 @@ def c09(c):
                  "location accuracy of the single root (|t_e − c| ≤ tolerance) is monitored, not proved"]
 
 
-C10_THEOREMS = ["SolOutM.step_flag", "SolOutM.eventPhase_fired_last_sample", "SolOutM.processEvs_fired", "SolOutM.processEvs_prefix",
+C10_THEOREMS = ["SolOutM.step_flag", "SolOutM.eventPhase_fired_last_sample", "SolOutM.processEvs_fired", "SolOutM.processEvs_prefix", "SolOutM.processEvs_stops_at_first",
                 "SolOutM.terminalSamples_tEvents", "SolOutM.dueBeforeEvent_tEvents"]
 
 
